@@ -207,11 +207,6 @@ func (s *scanner) processTail() (lexeme.LexEvent, error) {
 	case lexeme.InlineAnnotationTextBegin:
 		return s.processingFoundLexeme(lexeme.InlineAnnotationTextEnd)
 
-	case lexeme.MultiLineAnnotationBegin:
-		return s.processingFoundLexeme(lexeme.MultiLineAnnotationEnd)
-
-	case lexeme.MultiLineAnnotationTextBegin:
-		return s.processingFoundLexeme(lexeme.MultiLineAnnotationTextEnd)
 	}
 
 	err := errors.NewDocumentError(s.file, errors.ErrUnexpectedEOF)
